@@ -160,6 +160,8 @@ def pre_framing(shape: int, cl1: bytes, cl2: bytes, tek: int, mask: int, te: byt
 def h_framing(shape: int, cl1: bytes, cl2: bytes, tek: int, mask: int, te: bytes):
     """A request with the given Content-Length lines / Transfer-Encoding line is framed exactly as
     RFC 9112 6.3 demands, or rejected with HTTPInputError (-> 400) and nothing else."""
+    if P.reach == "accept_dup_cl" and not (shape == 2 and cl1 == cl2):
+        return   # reach twin only: prune the search towards the witness region (the real code still runs)
     has1 = shape in (1, 2, 4, 5)
     has2 = shape in (2, 5)
     hast = shape >= 3
@@ -425,6 +427,8 @@ def pre_startline(raw: bytes) -> bool:
 def h_startline(raw: bytes):
     """parse_request_start_line accepts exactly the RFC 9112 request-lines (HTTP/1.x), returns their three
     parts unchanged, and signals everything else with HTTPInputError and no other exception."""
+    if P.reach == "line_accepted" and len(raw) < 12:
+        return   # reach twin only: the shortest accepted line has 12 bytes
     line = raw.decode("latin-1")
     want = ref_request_line(line)
     try:
